@@ -11,10 +11,11 @@ Connects C04 (control-flow integrity of well-formed programs), the trace clauses
 of a compiled program resolves to a source card or is an epilogue entry; a trace entry keyed by a
 `CallFunction` resolves to a `Call` / `DynamicCall` card).
 
-`Props/C10.lean` (through `Lemmas/WfLemmas.lean`) and `Props/C15.lean` (through
-`Lemmas/TraceLemmas.lean`) both define `Cao.Compiler.Pre` and cannot be imported together, so the
-theorems here take `Bytecode.WF p` as a hypothesis; `C10.compile_wf_partial` provides it for
-`compile m std limit = .ok p` under its four hypotheses.
+The theorems here take `Bytecode.WF p` as a hypothesis; `C10b.compile_wf` provides it for
+`compile m std limit = .ok p` under its four hypotheses, and `Props/C15c.lean` composes the two
+(`compiled_error_located`, `compiled_error_trace'`, `compiled_sites_classified`: no `WF` hypothesis).
+(`Props/C10.lean` and `Props/C15.lean` used to be not co-importable: `Lemmas/WfLemmas.lean` and
+`Lemmas/TraceLemmas.lean` both defined `Cao.Compiler.Pre`; the former now lives in `Cao.Compiler.Wf`.)
 
 * `run_error_located` — for a well-formed program and a run from a machine without call frames
   (fresh, cleared, or after any earlier run): the reported address `e.at_` is an instruction start;
